@@ -28,7 +28,7 @@ META = {
                   "scenarios, incl. the write that crosses the size limit); per-call results, process survival, a follow-up write and read-back are "
                   "compared with the model and with the property directly.",
     "level_note": "partial: real thread timing is not modelled (steps = critical sections under batchLock/sb.lock; all interleavings of those steps are "
-                  "covered by the theorem, the tie exercises sequential scenarios plus one fault-free run of 40/300 concurrent writers). Not proved: "
+                  "covered by the theorem, the tie exercises sequential scenarios plus one fault-free run of 40/250 concurrent writers). Not proved: "
                   "'unaffected writes succeed' and 'every affected write reports an error' as theorems (checked by the tie's reference oracle only); "
                   "double close(fd) is recorded in the model but no bound is proved. writeFile (single plain file) and the generic writer are not in "
                   "the model. fdatasync/close faults in timer goroutines are not injected (strace counts per thread). Kernel behaviour of the "
@@ -155,7 +155,7 @@ def run(ctx):
                 for b in ("writev", "linkat", "fdatasync"):
                     for n in (1, 2, 3):
                         for m2 in (1, 2, 3):
-                            if (a, n) != (b, m2):
+                            if a != b:  # strace keeps one inject rule per syscall
                                 plans.append(("size", [(a, n), (b, m2)]))
     idx = {}
     for sc in sorted({p[0] for p in plans} - {"timer"}):
